@@ -28,11 +28,15 @@ type scripted struct{ ts []*sdf.Triangle3 }
 func (s scripted) Render(_ sdf.SDF3, out sdf.Triangle3Writer) {
 	// batches of 0..5 triangles like a marching cubes renderer; long lists mix these with writes beyond the
 	// buffer's flush threshold (3, 260, 127, 5, 300, 1, ...)
-	big := []int{3, 260, 127, 5, 300, 1, 256, 2}
+	big := []int{200, -1, 180, -1, 3, 260, 127, -1, 5, 300, 1, 256, 2} // -1: Close() used as a flush in the middle of the stream
 	for i, k := 0, 0; i < len(s.ts); k++ {
 		n := 1 + i%5
 		if len(s.ts) >= 300 {
 			n = big[k%len(big)]
+		}
+		if n < 0 {
+			out.Close()
+			continue
 		}
 		if i+n > len(s.ts) {
 			n = len(s.ts) - i
@@ -205,6 +209,10 @@ func main() {
 		&sdf.Triangle3{{X: 0, Y: 0, Z: 0}, {X: 0, Y: 1, Z: 0}, {X: 1, Y: 0, Z: 0}}, // clockwise seen from +z
 		&sdf.Triangle3{{X: 1e39, Y: 0, Z: 0}, {X: 0, Y: -1e39, Z: 0}, {X: 0, Y: 0, Z: 1e-40}},
 		&sdf.Triangle3{{X: 12345.678912, Y: -0.1, Z: 0.1}, {X: 3, Y: 4, Z: 5}, {X: 6, Y: 7, Z: 9}},
+		// small triangles far from the origin with coordinates that are not float32 values: the normal comes from
+		// the edge vectors, not from products of the positions
+		&sdf.Triangle3{{X: 200000.123, Y: -150000.77, Z: 99999.31}, {X: 200000.146, Y: -150000.77, Z: 99999.32}, {X: 200000.123, Y: -150000.751, Z: 99999.335}},
+		&sdf.Triangle3{{X: -512345.6789, Y: 4321.0123, Z: 777777.7}, {X: -512345.6589, Y: 4321.0223, Z: 777777.7}, {X: -512345.6789, Y: 4321.0323, Z: 777777.73}},
 		&sdf.Triangle3{{X: 1, Y: 0, Z: 0}, {X: 0, Y: 1, Z: 0}, {X: 0, Y: 0, Z: 1}},
 		&sdf.Triangle3{{X: 0.1, Y: 0.2, Z: 0.3}, {X: 0.4, Y: 0.5, Z: 0.6}, {X: 0.7, Y: 0.8, Z: 0.95}},
 		&sdf.Triangle3{{X: 100, Y: 100, Z: 100}, {X: 100 + 1e-6, Y: 100, Z: 100}, {X: 100, Y: 100 + 1e-6, Z: 100}})
